@@ -168,7 +168,7 @@ func genMut(r *vf.Run) func(t *rapid.T) MutCase {
 			t.Fatalf("generator produced an unwalkable config: %v", err)
 		}
 		kind := rapid.SampledFrom([]string{mUnknown, mUnknown, mUnknown, mUnknown, mWrongType, mWrongType, mWrongType,
-			mConstraint, mConstraint, mMissing, mBadType}).Draw(t, "kind")
+			mConstraint, mConstraint, mMissing, mMissing, mBadType, mBadType}).Draw(t, "kind")
 		pickSite := func(ok func(*cg.Site) bool) *cg.Site {
 			var cands []*cg.Site
 			for _, s := range sites {
